@@ -56,3 +56,6 @@ CFG["manifest"] = dict(
           "Go harness. float64 texts and texts with '_' / '.' / CR LF are outside the modelled value parsers (lenient)."),
     technique="Coq proof (refinement of an inductive grammar, both directions) + differential correspondence",
 )
+
+import tables  # constant tables / literals of the current source proved equal to the model's on every run (lib/tables.py)
+CFG["secondary"] = CFG.get("secondary", []) + [tables.C10_TABLES]
